@@ -270,6 +270,91 @@ def run_table_sharing(chk, spec):
 	if not s2.ok:
 		chk.fail("a former sharer whose partners were dropped and collected is writable", "alias/spurious-refusal/former-sharer/table-column", f"{spec!r}: after the sharer was collected t[0, {pos}] = 43 raised {s2!r}")
 
+TWIN_OPS = {
+	"isna": lambda v: v.isna(), "isna-of-slice": lambda v: v[0:len(v)].isna(), "eq-scalar": lambda v: v == object(), "ne-self": lambda v: v != v.copy(), "lt-big": lambda v: v.isna() | v.isna(),
+	"fillna": lambda v: v.fillna(v._underlying[0]), "dropna": lambda v: v.dropna(), "v*0": lambda v: v * 0 if isinstance(v._underlying[0], (int, float)) else v.isna(), "new": lambda v: Vector.new(False, len(v)),
+	"new-none": lambda v: Vector.new(None, len(v)), "slice-empty-lshift": lambda v: v[0:0] << [False] * len(v), "unique-of-constant": lambda v: Vector([0] * len(v)).unique() << [0] * (len(v) - 1),
+	"table-isna-column": lambda v: Table([v]).cols()[0].isna(), "sort-constant": lambda v: Vector([False] * len(v)).sort_by(), "cast-bool": lambda v: Vector([0] * len(v)).cast(bool), "mask-of-mask": lambda v: v.isna()[[True] * len(v)],
+	"agg-count": lambda v: Table({"k": [1] * len(v), "x": list(v)}).window(over="k", count_over="x").cols()[1], "compare-table": lambda v: (Table([v]) == Table([v.copy()])).cols()[0],
+}
+
+
+def run_twins(chk, spec):
+	"""the SAME operation on two unrelated vectors of one length, both results kept: equal contents (an all-False mask, a constant column ...) are not shared
+	storage - each result is a vector of its own and takes a write while the other one lives"""
+	import random
+	rng = random.Random(spec["seed"])
+	n = spec["n"]
+	kind = spec["kind"]
+	mk = {"int": lambda: [rng.randrange(1, 9) for _ in range(n)], "str": lambda: [rng.choice("abc") for _ in range(n)], "float": lambda: [rng.random() + 0.5 for _ in range(n)]}[kind]
+	a, b = Vector(mk(), name="a"), Vector(mk(), name="b")
+	op = TWIN_OPS[spec["op"]]
+	ra, rb = call(op, a), call(op, b)
+	chk.judged("derived", ("twins", spec["op"], kind, n))
+	if not (ra.ok and rb.ok) or not isinstance(ra.value, Vector) or not isinstance(rb.value, Vector) or len(ra.value) == 0 or len(rb.value) == 0:
+		chk.skip("twins-op-unavailable")
+		return
+	keep = [ra.value, rb.value]
+	for which, r in (("first", ra.value), ("second", rb.value), ("first-again", ra.value)):
+		w = call(lambda: r.__setitem__(0, r._underlying[0]))
+		if not w.ok and isinstance(w.exc, AliasError):
+			chk.fail("operation results share storage with no other live vector and are always writable", f"alias/library-result-shares-storage/twin-results/{spec['op']}",
+				f"{spec!r}: two {spec['op']} results of length {n} are alive; writing the {which} raised AliasError (same storage object: {ra.value.__dict__.get('_underlying') is rb.value.__dict__.get('_underlying')})")
+			return
+	del keep
+
+
+def run_table_own_columns(chk, spec):
+	"""table assignments whose value is made of the table's own column objects, and column replacement through the indexed accessor: no refusal while
+	no OTHER vector shares the storage, and afterwards table and caller hold separate vectors"""
+	import random, warnings
+	rng = random.Random(spec["seed"])
+	n = spec["n"]
+	form = spec["form"]
+	chk.judged("sharing", ("table-own-columns", form, n))
+	with warnings.catch_warnings():
+		warnings.simplefilter("ignore")
+		t = Table({"a": [rng.randrange(9) for _ in range(n)], "b": [10 + rng.randrange(9) for _ in range(n)], "c": [20 + rng.randrange(9) for _ in range(n)]})
+		before = [list(x._underlying) for x in t.cols()]
+		if form in ("region-self-swapped", "region-own-column-list", "region-self-rotated", "region-own-column-list-mask"):
+			o = call({"region-self-swapped": lambda: t.__setitem__((slice(None), ["b", "a", "c"]), t), "region-self-rotated": lambda: t.__setitem__((slice(None), slice(None, None, -1)), t),
+				"region-own-column-list": lambda: t.__setitem__((slice(None), ["a", "b"]), [t.b, t.a]), "region-own-column-list-mask": lambda: t.__setitem__(([True] * n, ["a", "b"]), [t.cols()[1], t.cols()[0]])}[form])
+			if not o.ok and isinstance(o.exc, AliasError):
+				chk.fail("a write is refused with AliasError only while another live vector really shares that storage", f"alias/spurious-refusal/table-region-from-own-columns/{form}", f"{spec!r}: {o!r}")
+				return
+			for j in range(3):
+				w = call(lambda: t.cols()[j].__setitem__(0, t.cols()[j]._underlying[0]))
+				if not w.ok and isinstance(w.exc, AliasError):
+					chk.fail("table columns are always writable", f"alias/library-result-shares-storage/after-{form}", f"{spec!r}: column {j} refuses a write afterwards: {w!r}")
+					return
+			return
+		# column replacement by a caller's vector, through every accessor spelling: the table holds a vector of its own
+		vec = Vector([100 + i for i in range(n)], name="mine")
+		acc = {"plain": "b", "indexed": "b__1", "indexed-first": "a__0", "upper": "B"}[form]
+		o = call(setattr, t, acc, vec)
+		if not o.ok:
+			chk.skip("own-columns-accessor-refused")
+			return
+		pos = 0 if form == "indexed-first" else 1
+		col = t.cols()[pos]
+		if col is vec:
+			chk.fail("table columns share storage with no other live vector", f"alias/column-is-the-callers-vector/{form}", f"{spec!r}: t.{acc} = vec stored the caller's own vector object as the column")
+			return
+		w1 = call(lambda: vec.__setitem__(0, -1))
+		if list(t.cols()[pos]._underlying)[0] == -1:
+			chk.fail("two live vectors never observe each other's writes", f"alias/leaked-write/column-replacement/{form}", f"{spec!r}: writing the caller's vector changed the table")
+			return
+		w2 = call(lambda: t.__setitem__((n - 1, pos), -2))
+		if list(vec._underlying)[n - 1] == -2 and n > 1:
+			chk.fail("two live vectors never observe each other's writes", f"alias/leaked-write/column-replacement/{form}", f"{spec!r}: writing the table changed the caller's vector")
+			return
+		for wr, what in ((w1, "the caller's vector"), (w2, "the table")):
+			if not wr.ok and isinstance(wr.exc, AliasError):
+				chk.fail("a write is refused with AliasError only while another live vector really shares that storage", f"alias/spurious-refusal/column-replacement/{form}", f"{spec!r}: writing {what} raised {wr!r}")
+				return
+		if vec.name != "mine":
+			chk.fail("the caller's vector is not the table's column", f"alias/callers-vector-renamed/{form}", f"{spec!r}: the caller's vector is now named {vec.name!r}")
+
 
 def run_promote_with_holder(chk, spec):
 	"""something else (a copy-module clone, a row, a running iterator) keeps a vector's OLD storage alive while an in-place write promotes the vector; once it is
@@ -308,7 +393,7 @@ def run_promote_with_holder(chk, spec):
 
 DERIVED_OPS = ["empty-left-lshift-vector", "empty-left-lshift-tuple", "typed-empty-lshift-vector", "empty-mask-lshift-vector", "lshift-empty-vector", "copy", "slice-full", "slice-0-n", "slice-0-big", "slice-neg", "slice-step1", "mask-all", "mask-all-vector", "T", "lshift-empty", "rlshift-empty", "lshift-empty-tuple",
 	"sort", "fillna", "dropna", "pos", "cast-same", "to_object", "index-all", "table-column", "table-column-slice", "unique", "copy-of-copy", "rshift-column", "lshift-none-then-slice"]
-RUNNERS = {"promote_with_holder": run_promote_with_holder, "table_sharing": run_table_sharing, "history": run_history, "burst": run_burst, "sharing": run_sharing, "derived": run_derived}
+RUNNERS = {"twins": run_twins, "table_own_columns": run_table_own_columns, "promote_with_holder": run_promote_with_holder, "table_sharing": run_table_sharing, "history": run_history, "burst": run_burst, "sharing": run_sharing, "derived": run_derived}
 
 
 def setup(chk):
@@ -330,6 +415,13 @@ def run(chk):
 		for kind in ("int", "str", "float", "object", "object-nullable"):
 			for n in (1, 2, 5):
 				chk.case("derived", {"op": op, "kind": kind, "n": n, "seed": rng.randrange(10**9)}, "derived")
+	for op in TWIN_OPS:
+		for kind in ("int", "str", "float"):
+			for n in (1, 2, 5):
+				chk.case("twins", {"op": op, "kind": kind, "n": n, "seed": rng.randrange(10**9)}, "derived-twins")
+	for form in ("region-self-swapped", "region-own-column-list", "region-self-rotated", "region-own-column-list-mask", "plain", "indexed", "indexed-first", "upper"):
+		for n in (1, 2, 4):
+			chk.case("table_own_columns", {"form": form, "n": n, "seed": rng.randrange(10**9)}, "table-own-columns")
 	for how in ("copy.copy", "iterator", "row-then-cell", "row-then-view"):
 		for n in (1, 2, 3, 5, 8):
 			for wide in ("float", "complex"):
